@@ -155,6 +155,12 @@ def app(fname, *args):
         x = args[0]
         if x.is_zero():
             return const(0) if fname in ("sin", "tan") else const(1)
+        # cos(acos(y)) = y ; sin(acos(y)) = sqrt(1-y^2) ; sin(asin(y)) = y ; cos(asin(y)) = sqrt(1-y^2)
+        inner = _single_atom(x)
+        if inner is not None and inner[0] in ("acos", "asin") and fname in ("sin", "cos"):
+            y = uncanon(inner[1])
+            same = (fname == "cos") == (inner[0] == "acos")
+            return y if same else app("sqrt", const(1) - y * y)
         if _neg_leading(x):
             y = app(fname, -x)
             return y if fname == "cos" else -y
@@ -193,6 +199,16 @@ def app(fname, *args):
     if fname in ("arccos", "acos"):
         return atom(("acos", args[0].canon()))
     return atom((fname,) + tuple(a.canon() for a in args))
+
+
+def _single_atom(r):
+    """r is exactly one application atom with coefficient 1 -> the atom tuple, else None"""
+    if r.d != Poly.const(1) or len(r.n.t) != 1:
+        return None
+    (k, v), = r.n.t.items()
+    if v != 1 or len(k) != 1 or k[0][1] != 1 or not isinstance(k[0][0], tuple):
+        return None
+    return k[0][0]
 
 
 def radians(x):
